@@ -849,12 +849,16 @@ class PiecewiseExponentialCoalescentGrid(Distribution):
             -1, indices_internals
         ) * (internal_heights - grid0.gather(-1, indices_internals))
 
-        # Integrate 1/N(t) over each interval
-        growth_intervals = growth.gather(-1, indices_grid_heights)
-        grid_heights_growth_exp = torch.exp(grid_heights_sorted * growth_intervals)
+        # Integrate 1/N(t) over each interval: within the piece starting at grid_i
+        # N(t) = N(grid_i) exp(-growth_i (t - grid_i))
+        indices_intervals = indices_grid_heights[..., 1:]
+        growth_intervals = growth.gather(-1, indices_intervals)
+        grid_start = grid0.gather(-1, indices_intervals)
+        pop_size_start = log_pop_size_grid.gather(-1, indices_intervals).exp()
         integral = (
-            grid_heights_growth_exp[..., 1:] - grid_heights_growth_exp[..., :-1]
-        ) / (thetas * growth_intervals[..., 1:])
+            torch.exp(growth_intervals * (grid_heights_sorted[..., 1:] - grid_start))
+            - torch.exp(growth_intervals * (grid_heights_sorted[..., :-1] - grid_start))
+        ) / (pop_size_start * growth_intervals)
 
         return -torch.sum(
             lchoose2 * integral,
